@@ -146,5 +146,60 @@ theorem of_infer {e : LExpr K} {m : Meta} (hm : infer e = .ok m) :
     exact ⟨o, rfl, hm, rfl⟩
 
 
+
+/-! ### plain (non-linear) `Operator`s: the generic closures are the pointwise construction -/
+
+/-- `Operator.__add__/__sub__`: the generic closure is the pointwise sum / difference -/
+theorem opAddSub_pointwise (sub : Bool) {a b o : Obj K} (h : opAddSub sub a b = .ok o) (x : Vc K) (i : Nat) :
+    o.md.cls = .op ∧ o.md.inShape = a.md.inShape ∧ o.md.outShape = a.md.outShape
+    ∧ (o.eval x).get i = if i < a.m then pm sub ((a.eval x).get i) ((b.eval x).get i) else 0 := by
+  unfold opAddSub at h
+  split at h
+  · injection h with h; subst h
+    exact ⟨rfl, rfl, rfl, rfl⟩
+  · cases h
+
+/-- `Operator.__mul__/__rmul__/__truediv__`: pointwise scalar multiple -/
+theorem opMul_pointwise {a o : Obj K} (c : Scal K) (h : opMul a c = .ok o) (x : Vc K) (i : Nat) :
+    (o.eval x).get i = if i < a.m then c.val * (a.eval x).get i else 0 := by
+  unfold opMul at h
+  split at h
+  · injection h with h; subst h; rfl
+  · cases h
+
+theorem opDiv_pointwise {a o : Obj K} (c : Scal K) (h : opDiv a c = .ok o) (x : Vc K) (i : Nat) :
+    (o.eval x).get i = if i < a.m then (a.eval x).get i / c.val else 0 := by
+  unfold opDiv at h
+  split at h
+  · injection h with h; subst h; rfl
+  · cases h
+
+/-- `Operator.__call__(Operator)`: composition of the closures -/
+theorem opComp_pointwise (cfg : Cfg) {a b o : Obj K} (h : opComp cfg a b = .ok o) (x : Vc K) :
+    o.eval x = a.eval (b.eval x) ∧ a.md.inShape = b.md.outShape := by
+  unfold opComp at h
+  split at h
+  · rename_i hs
+    injection h with h; subst h
+    exact ⟨rfl, hs⟩
+  · cases h
+
+/-- whenever the right operand is a plain (non-linear) `Operator`, `+`/`-` dispatch to
+    `Operator.__add__/__sub__`, whatever the class of the left operand -/
+theorem addSub_with_operator (sub : Bool) (a b : Obj K) (hb : b.cls = .op) :
+    addSub Cfg.fixed sub a b = (if a.sameShape b then opAddSub sub a b else .error .shape) := by
+  have hb' : b.md.cls = .op := hb
+  unfold addSub
+  simp only [hb, Bool.false_and, Bool.false_eq_true, if_false, decide_eq_false_iff_not]
+  have hne : ¬ (Cls.op = Cls.matrix) := by decide
+  simp only [show (decide (Cls.op = Cls.matrix)) = false from by decide, Bool.false_and, Bool.false_eq_true, if_false]
+  by_cases hs : a.sameShape b = true
+  · cases hca : a.cls <;>
+      simp [hca, hs, matAddSub, wrapAddSub, addSubOf, opAddSub, hb, hb', Cls.isSub, Cls.arith, Cls.isLinop,
+        show a.md.cls = _ from hca]
+  · have hs' : a.sameShape b = false := by simpa using hs
+    cases hca : a.cls <;>
+      simp [hca, hs', matAddSub, wrapAddSub, opAddSub, hb, hb', Cls.isLinop, show a.md.cls = _ from hca]
+
 end
 end Scico.OpAlg
